@@ -65,6 +65,10 @@ class MemStateBackend(BaseStateBackend[Params, Result]):
         self._workflow_types.clear()
         self._workflow_runs.clear()
         self._workflow_sub_invocations.clear()
+        # Runner contexts and workflow data are state backend data too (the SQLite backend
+        # drops them with its tables): a purged backend must not keep answering from them.
+        self._runner_contexts.clear()
+        self._workflow_data.clear()
 
     def _upsert_invocations(
         self, entries: list[tuple["InvocationDTO", "CallDTO"]]
